@@ -186,7 +186,20 @@ def rule_d1(ctx):
                 if v is None:
                     continue
                 rets = [s for s in n.body if isinstance(s, ast.Return)]
+                if not rets:
+                    # single-exit form: `result = self.x_coords(..)` in the
+                    # arm and `return result` after the chain
+                    returned = {dotted(x.value) for x in ast.walk(f.node)
+                                if isinstance(x, ast.Return)
+                                and isinstance(x.value, ast.Name)}
+                    rets = [s for s in n.body if isinstance(s, ast.Assign)
+                            and len(s.targets) == 1
+                            and dotted(s.targets[0]) in returned]
                 arms.setdefault(v, []).append((f, n, rets, dataparam))
+    if not arms:
+        raise AnalysisError("coords dispatch: no `if model == Model.X` arm "
+                            "recognised in Point.coords / "
+                            "HyperbolicObject.coords")
     for v in values:
         if v not in arms:
             r.violation(
@@ -200,9 +213,16 @@ def rule_d1(ctx):
         for f, n, rets, dataparam in arms[v]:
             inst = f"coords[{v}]"
             if len(rets) != 1 or not isinstance(rets[0].value, ast.Call):
+                if any(isinstance(x, ast.Call) and dotted(x.func).endswith(
+                        "_coords") for b in n.body for x in ast.walk(b)):
+                    r.note("D1", loc(f, n), norm_stmt(n)[:120],
+                           "arm calls a *_coords handler in a form the rule "
+                           "does not recognise (not judged)")
+                    continue
                 r.violation("D1", f"{f.fq}|{v}|shape", loc(f, n),
                             norm_stmt(n)[:120],
-                            "arm does not return a single handler call",
+                            "arm does not hand the request to a "
+                            "self.<model>_coords(...) handler",
                             instance=inst)
                 continue
             call = rets[0].value
@@ -388,6 +408,54 @@ def _ordering_table(f, enum):
     return table
 
 
+def _resolve_helper(ctx, f, call):
+    """module-level function or self-method of f's class called by `call`."""
+    fn = call.func
+    try:
+        if isinstance(fn, ast.Name):
+            return ctx.p.get_function(f.module.rel, fn.id)
+        if isinstance(fn, ast.Attribute) and dotted(fn.value) == "self" \
+                and f.cls is not None:
+            return ctx.p.find_method(f.cls, fn.attr)
+    except AnalysisError:
+        return None
+    return None
+
+
+def _degree_sites(f, flag):
+    """[(function, stmt, guarded, form ok)] radians->degrees conversions in
+    f; guarded: True = runs only when `flag` is true, False = only when
+    false, None = unconditional."""
+    out = []
+    parents = f.module.parents
+    for n in ast.walk(f.node):
+        if not isinstance(n, (ast.AugAssign, ast.Assign)):
+            continue
+        txt = dotted(n.value)
+        npdeg = any(isinstance(c, ast.Call) and dotted(c.func) in (
+            "np.degrees", "np.rad2deg") for c in ast.walk(n.value))
+        if not (("180" in txt and "pi" in txt.lower()) or npdeg):
+            continue
+        cur = n
+        guarded = None
+        while cur is not f.node:
+            par = parents[cur]
+            if isinstance(par, ast.If):
+                t = eval_test(par.test, {flag: True})
+                t2 = eval_test(par.test, {flag: False})
+                if t is not None and t2 is not None and t != t2:
+                    guarded = (cur in par.body) == t
+            cur = par
+        t = txt.replace(" ", "")
+        mult = isinstance(n, ast.AugAssign) and isinstance(n.op, ast.Mult) \
+            and (t.startswith("180/") or t.startswith("(180/"))
+        alt = isinstance(n, ast.Assign) and ("*180/" in t or "*(180/" in t
+                                             or npdeg)
+        out.append((f, n, guarded, mult or alt))
+    # conditional-expression form: x * 180 / pi if degrees else x
+    return out
+
+
 def rule_x1x2(ctx):
     r = ctx.r
     r.rule("X1", "Geodesic.circle_parameters and Segment.circle_parameters "
@@ -402,55 +470,58 @@ def rule_x1x2(ctx):
         if has_table:
             tables[cname] = (f, _ordering_table(f, enum))
         # X2
-        scal = []
-        for n in ast.walk(f.node):
-            if isinstance(n, (ast.AugAssign, ast.Assign)):
-                txt = dotted(n.value)
-                if "180" in txt and "pi" in txt.lower():
-                    scal.append(n)
         inst = f"{cname}.circle_parameters:degrees"
         if "degrees" not in f.params:
             r.violation("X2", f"{f.fq}|param", loc(f, f.node), cname,
                         "no `degrees` parameter", instance=inst)
             continue
-        if not scal:
+        sites = _degree_sites(f, "degrees")
+        if not sites:
+            # the conversion may live in a helper that receives the flag
+            for c in ast.walk(f.node):
+                if not isinstance(c, ast.Call):
+                    continue
+                passed = [i for i, a in enumerate(c.args)
+                          if dotted(a) == "degrees"]
+                kws = [k.arg for k in c.keywords
+                       if dotted(k.value) == "degrees" and k.arg]
+                if not passed and not kws:
+                    continue
+                g = _resolve_helper(ctx, f, c)
+                if g is None:
+                    continue
+                off = 1 if (g.cls is not None and isinstance(
+                    c.func, ast.Attribute) and dotted(c.func.value) == "self") \
+                    else 0
+                names = [g.params[i + off] for i in passed
+                         if i + off < len(g.params)] + kws
+                for nm in names:
+                    sites += _degree_sites(g, nm)
+                if sites:
+                    r.analysed(g)
+                    break
+        if not sites:
             r.violation("X2", f"{f.fq}|missing", loc(f, f.node),
                         f"{cname}.circle_parameters",
                         "no radians->degrees scaling (180/pi) exists: "
                         "degrees=True returns radians", instance=inst)
             continue
-        for n in scal:
-            parents = f.module.parents
-            cur = n
-            guarded = None
-            while cur is not f.node:
-                par = parents[cur]
-                if isinstance(par, ast.If):
-                    t = eval_test(par.test, {"degrees": True})
-                    t2 = eval_test(par.test, {"degrees": False})
-                    if t is not None and t2 is not None and t != t2:
-                        guarded = (cur in par.body) == t
-                cur = par
-            txt = dotted(n.value).replace(" ", "")
-            mult = isinstance(n, ast.AugAssign) and isinstance(n.op, ast.Mult) \
-                and txt.startswith("180/")
-            alt = isinstance(n, ast.Assign) and ("*180/" in txt or
-                                                 "*(180/" in txt)
-            if guarded is True and (mult or alt):
-                r.ok("X2", inst, loc(f, n), norm_stmt(n),
+        for g, n, guarded, formok in sites:
+            if guarded is True and formok:
+                r.ok("X2", inst, loc(g, n), norm_stmt(n),
                      "scaled by 180/pi only when degrees is true")
             elif guarded is None:
-                r.violation("X2", f"{f.fq}|unguarded", loc(f, n),
+                r.violation("X2", f"{f.fq}|unguarded", loc(g, n),
                             norm_stmt(n),
                             "the 180/pi scaling is not control-dependent on "
                             "`degrees`: degrees=False still returns degrees",
                             instance=inst)
             elif guarded is False:
-                r.violation("X2", f"{f.fq}|inverted", loc(f, n), norm_stmt(n),
+                r.violation("X2", f"{f.fq}|inverted", loc(g, n), norm_stmt(n),
                             "the 180/pi scaling runs when `degrees` is false",
                             instance=inst)
             else:
-                r.violation("X2", f"{f.fq}|factor", loc(f, n), norm_stmt(n),
+                r.violation("X2", f"{f.fq}|factor", loc(g, n), norm_stmt(n),
                             "the degree conversion is not a multiplication "
                             "by 180/pi", instance=inst)
     (fg, tg), (fs, ts) = tables["Geodesic"], tables["Segment"]
@@ -572,15 +643,27 @@ def rule_r1(ctx):
         r.analysed(f)
         defs = single_defs(f.node)
         # evals is bound by tuple assignment from np.linalg.eig
-        guards = [g for g in _raising_ifs(f.node)
-                  if _depends_on(g.test, names, defs)]
+        allpaths = list(_paths_to_return(f.node.body))
+        ifs = {id(c): c for conds, _ in allpaths for c, _t in conds
+               if isinstance(c, ast.If)
+               and _depends_on(c.test, names, defs)}
+
+        def rejects(c, outcome):
+            """every path that takes `outcome` at c ends in raise
+            GeometryError (the test may be written either way round)"""
+            ends = [t for conds, t in allpaths
+                    if any(x is c and tk == outcome for x, tk in conds)]
+            return bool(ends) and all(
+                isinstance(t, ast.Raise) and t.exc is not None
+                and "GeometryError" in dotted(t.exc) for t in ends)
         npaths = 0
         bad = 0
-        for conds, term in _paths_to_return(f.node.body):
+        for conds, term in allpaths:
             if not isinstance(term, ast.Return):
                 continue
             npaths += 1
-            passed = [c for c, taken in conds if c in guards and not taken]
+            passed = [c for c, taken in conds if id(c) in ifs
+                      and rejects(c, not taken)]
             if not passed:
                 bad += 1
                 badterm = term
